@@ -17,9 +17,9 @@ RULE = ('(i) nesting ladder: for each of ~30 constructs (brackets, parens, angle
         'list nesting and marker runs, definition colons, nested links, <div>, table pipes) the closed, unclosed and unopened forms with n on '
         'the ladder 10^2..10^6 openers are converted by the uninstrumented CLI built without optimisation like the CMake build of the project (largest frames; default 8 MiB stack) through the writers in MMD and compatibility '
         'mode; oracle: exit status 0 (a signal is a violation; a rung exceeding the per-case time budget ends that ladder as inconclusive). '
-        '(ii) repetition ladder: d^k for corpus files and line-kind representatives, k=1,2,4,..; cost = executed SanitizerCoverage edges (pure '
+        '(i-a) the same ladders with one more construct in the document that switches on an optional walk of the whole tree (abbreviation, glossary, citation, link/image reference definitions, {{TOC}}, metadata, table with caption, definition list, math) through every writer incl. the packaged formats (epub, odt, bundlezip, itmz). (i-b) stack plateau: peak stack of one conversion (in-process meter) at nesting depth 10000 against depth 2500, plain and behind a quote / list prefix: beyond the built-in limits the peak must not grow by more than half (+64 KiB) -- bounded recursion has reached its plateau, unbounded recursion has not. (ii) repetition ladder: d^k for corpus files and line-kind representatives, k=1,2,4,..; cost = executed SanitizerCoverage edges (pure '
         'function of the input); oracle cost(d^2k) <= 2.15*cost(d^k) on the two largest rungs with >=64 KiB input, and peak stack < 6 MiB. '
-        '(iii) the published pathological patterns (a_, _a, a], [a, *a_, [ a_, runs of [ and ]) one per line and on one line, n=2^10..2^17, same '
+        'Seeds include anchored cross-references under --random / --unique. (iii) the published pathological patterns (a_, _a, a], [a, *a_, [ a_, runs of [ and ]) one per line and on one line, n=2^10..2^17, same '
         'doubling oracle. Non-trivial: a completed rung with >=10^4 bytes of openers, or a seed/pattern with >=3 measured rungs; distinct by '
         '(construct, form, n, writer, mode) resp. (seed, writer, mode).')
 ASSUMPTIONS = ['linearity is asserted only for repeated blocks and the named published patterns (as in the statement); deep balanced nesting is only required not to crash',
